@@ -167,7 +167,7 @@ class LinearFilter(LinearFilterProperties):
           ):
       raise ValueError("Non-causal filter")
     if isinstance(self.denpoly[0], Stream): # Variable output gain
-      den = self.denpoly
+      den = Poly(self.denpoly) # New dict: this call should keep self.denpoly
       inv_gain = 1 / den[0]
       den[0] = 0
       den *= inv_gain.copy()
